@@ -82,7 +82,7 @@ def showRow : Row → String
   | .code p n k secs trail =>
     "C " ++ (match p with | some p => hexChars p | none => "-") ++ " " ++ optNat n ++ " " ++
       kindWord k ++ " " ++ (if trail then "1" else "0") ++ " " ++ showSecs' secs
-  | .funcHeader p n t => "F " ++ hexChars p ++ " " ++ toString n ++ " " ++ hexOfBytes t
+  | .funcHeader p n t => "F " ++ hexChars p ++ " " ++ optNat n ++ " " ++ hexOfBytes t
 
 def parseLines : Nat → List String → List Line → Option (List Line)
   | 0, [], acc => some acc.reverse
